@@ -65,3 +65,16 @@ def wit_d6_c14():
 
 SIGNATURES["D6-C14"] = sig_tree_ts_binz
 WITNESSES["D6-C14"] = wit_d6_c14
+
+def sig_d2(info, t):
+    return bool(info.get("arm_never_observed")) and info.get("l2_lambda") != 1.0
+
+def wit_d2():
+    from mabwiser.mab import MAB, LearningPolicy
+    m = MAB([1, 2], LearningPolicy.LinUCB(alpha=1.0, l2_lambda=4.0))
+    m.fit([1, 1], [1.0, 0.0], [[1.0, 0.0], [0.0, 1.0]])
+    e = m.predict_expectations([[1.0, 1.0]])[2]
+    return abs(e - (2.0 ** 0.5) / 2.0) > 1e-6
+
+SIGNATURES["D2-C02"] = sig_d2
+WITNESSES["D2-C02"] = wit_d2
